@@ -160,7 +160,7 @@ func (g *Gen) Time() Time {
 		t.T = g.R.TimeNanos()
 	}
 	if g.R.Chance(0.25) {
-		t.Offset = g.R.Pick(60, 120, -300, 330, 345, -570, 840, -720)
+		t.Offset = g.R.Pick(60, 120, -300, 330, 345, -570, 840, -720, 540, -330)
 	}
 	return t
 }
